@@ -40,6 +40,14 @@ class _Capture:
         return self
 
 
+import sqlalchemy as _sa
+
+
+class _Deco(_sa.TypeDecorator):
+    impl = _sa.String
+    cache_ok = True
+
+
 def decode_like(pattern: str, esc: Optional[str]):
     """Reference LIKE-pattern decoder (SQL standard ESCAPE semantics).  Returns (literal_text,
     n_wildcards, well_formed)."""
@@ -82,25 +90,27 @@ def _sqlite_confirm(opname: str, other: str, esc: Optional[str], pattern: str, u
     if other:
         subjects.add(other[:-1])
         subjects.add(other[1:])
-    col = sa.column("x", sa.String)
-    expr = getattr(col, base)(other, escape=esc, autoescape=True)
     conn = sqlite3.connect(":memory:")
     try:
         conn.execute("PRAGMA case_sensitive_like = ON")
         conn.execute("CREATE TABLE t (x TEXT)")
         from sqlalchemy.dialects import sqlite as sqlite_d
 
-        comp = sa.select(sa.literal_column("1")).select_from(sa.table("t", col)).where(expr).compile(dialect=sqlite_d.dialect())
-        for s in sorted(subjects):
-            if "\x00" in s:
-                continue
-            conn.execute("DELETE FROM t")
-            conn.execute("INSERT INTO t VALUES (?)", (s,))
-            params = tuple(comp.params[n] for n in comp.positiontup)
-            got = conn.execute(str(comp), params).fetchone() is not None
-            exp = {"startswith": s.startswith(other), "endswith": s.endswith(other), "contains": other in s}[base]
-            if got != exp:
-                return False
+        # plain String column and a TypeDecorator-typed column (its Comparator forwards the operator)
+        for typ in (sa.String, _Deco):
+            col = sa.column("x", typ)
+            expr = getattr(col, base)(other, escape=esc, autoescape=True)
+            comp = sa.select(sa.literal_column("1")).select_from(sa.table("t", col)).where(expr).compile(dialect=sqlite_d.dialect())
+            for s in sorted(subjects):
+                if "\x00" in s:
+                    continue
+                conn.execute("DELETE FROM t")
+                conn.execute("INSERT INTO t VALUES (?)", (s,))
+                params = tuple(comp.params[n] for n in comp.positiontup)
+                got = conn.execute(str(comp), params).fetchone() is not None
+                exp = {"startswith": s.startswith(other), "endswith": s.endswith(other), "contains": other in s}[base]
+                if got != exp:
+                    return False
         return True
     finally:
         conn.close()
